@@ -338,4 +338,423 @@ theorem restrictedM_deep {cs : List TwoFloat} (hz : InnerZero cs) {x : TwoFloat}
   unfold val
   rw [show (arithmetic.impl_Mul_TwoFloat_for_TwoFloat.mul x _).V = x.V from h3]
 
+/-! ## 1. `restricted_tan` -/
+
+theorem TAN_COEFFS_val : trigonometry.TAN_COEFFS.map val = tanCoeffs := by decide +kernel
+
+theorem TAN_COEFFS_ok : ∀ c ∈ trigonometry.TAN_COEFFS, c.Valid ∧ c.WF := by decide +kernel
+
+theorem tan_hBnd : hBnd TT tanCoeffs = true := by decide +kernel
+
+/-- rounding error of `restricted_tan` against the exact rational polynomial, all valid `|x| ≤ 0.786` -/
+theorem restricted_tan_bound {x : TwoFloat} (hv : x.Valid) (hw : x.WF) (hhi : |val x| ≤ 393 / 500) :
+    (trigonometry.restricted_tan x).Valid ∧ (trigonometry.restricted_tan x).WF ∧
+    |val (trigonometry.restricted_tan x) - tanPolyQ (val x)| ≤ |val x| * 16 / 2 ^ 99 + 1 / 2 ^ 949 := by
+  have h := restrictedM_bound (cs := trigonometry.TAN_COEFFS) (by decide) (by decide) TAN_COEFFS_ok
+    (T := TT) TT_le_one (by rw [TAN_COEFFS_val]; exact tan_hBnd) hv hw (sq_le_TT hhi)
+  rw [TAN_COEFFS_val] at h
+  rw [restricted_tan_eq]
+  have e : ((trigonometry.TAN_COEFFS.length + 2 : ℕ) : ℚ) = 16 := by
+    have : trigonometry.TAN_COEFFS.length = 14 := by decide
+    rw [this]; norm_num
+  rw [e] at h
+  exact h
+
+theorem abs_le_abs_tan {r : ℝ} (hr : |r| ≤ 4 / 5) : |r| ≤ |Real.tan r| := by
+  have hpi := Real.one_le_pi_div_two
+  rcases le_total 0 r with h0 | h0
+  · rw [abs_of_nonneg h0] at hr ⊢
+    exact le_trans (Real.le_tan h0 (by linarith)) (le_abs_self _)
+  · rw [abs_of_nonpos h0] at hr ⊢
+    have := Real.le_tan (x := -r) (by linarith) (by linarith)
+    rw [Real.tan_neg] at this
+    exact le_trans this (neg_le_abs _)
+
+/-- **`restricted_tan` against `Real.tan`**, all valid `|r| ≤ 0.786`: relative `5·2^-53` plus absolute `2^-949` -/
+theorem restricted_tan_real {x : TwoFloat} (hv : x.Valid) (hw : x.WF) (hhi : |val x| ≤ 393 / 500) :
+    (trigonometry.restricted_tan x).Valid ∧ (trigonometry.restricted_tan x).WF ∧
+    |rval (trigonometry.restricted_tan x) - Real.tan (rval x)|
+      ≤ 5 / 2 ^ 53 * |Real.tan (rval x)| + 1 / 2 ^ 949 := by
+  obtain ⟨hV, hW, hb⟩ := restricted_tan_bound hv hw hhi
+  have hr : |rval x| ≤ 393 / 500 := by have := rval_le hhi; push_cast at this; exact this
+  have hb' : |rval (trigonometry.restricted_tan x) - TanPoly (rval x)| ≤ |rval x| * 16 / 2 ^ 99 + 1 / 2 ^ 949 := by
+    have := (Rat.cast_le (K := ℝ)).2 hb
+    rw [Rat.cast_abs, Rat.cast_sub, tanPolyQ_cast] at this
+    rw [abs_rval]
+    push_cast at this ⊢
+    exact this
+  refine ⟨hV, hW, ?_⟩
+  have e : rval (trigonometry.restricted_tan x) - Real.tan (rval x)
+      = (rval (trigonometry.restricted_tan x) - TanPoly (rval x)) - (Real.tan (rval x) - TanPoly (rval x)) := by
+    ring
+  rw [e]
+  refine le_trans (abs_sub _ _) ?_
+  have h1 := tan_poly_rel hr
+  have h2 := abs_le_abs_tan (le_trans hr (by norm_num))
+  have h3 : |rval x| * 16 / 2 ^ 99 ≤ 1 / 2 ^ 54 * |Real.tan (rval x)| := by
+    have : |rval x| * 16 / 2 ^ 99 = 1 / 2 ^ 95 * |rval x| := by ring
+    rw [this]
+    have h4 : (1 : ℝ) / 2 ^ 95 * |rval x| ≤ 1 / 2 ^ 54 * |rval x| :=
+      mul_le_mul_of_nonneg_right (by norm_num) (abs_nonneg _)
+    have h5 := mul_le_mul_of_nonneg_left h2 (by positivity : (0 : ℝ) ≤ 1 / 2 ^ 54)
+    linarith
+  have e2 : (5 : ℝ) / 2 ^ 53 * |Real.tan (rval x)| = 9 / 2 ^ 54 * |Real.tan (rval x)| + 1 / 2 ^ 54 * |Real.tan (rval x)| := by
+    ring
+  rw [e2]; linarith
+
+/-! ## 2. the two kinds of result -/
+
+/-- even quadrants: `restricted_tan r` against `tan ρ` for the exactly reduced argument `ρ` -/
+theorem via_tan {r : TwoFloat} (hv : r.Valid) (hw : r.WF) (hhi : |val r| ≤ 393 / 500) {ρ : ℝ}
+    (hρ : |rval r - ρ| ≤ 1 / 2 ^ 81) :
+    |rval (trigonometry.restricted_tan r) - Real.tan ρ|
+      ≤ 5 / 2 ^ 53 * |Real.tan ρ| + 1 / 2 ^ 81 * (1 + 1 / 2 ^ 40) * (1 + Real.tan ρ ^ 2) := by
+  obtain ⟨_, _, h⟩ := restricted_tan_real hv hw hhi
+  have hr : |rval r| ≤ 393 / 500 := by have := rval_le hhi; push_cast at this; exact this
+  have hρ' : |ρ| ≤ 787 / 1000 := by
+    have := abs_add_le (ρ - rval r) (rval r)
+    rw [sub_add_cancel, abs_sub_comm] at this
+    have : (1 : ℝ) / 2 ^ 81 ≤ 1 / 1000 := by norm_num
+    linarith
+  have hp := tan_perturb (le_trans hr (by norm_num)) hρ' hρ (by norm_num)
+  have hsq : (0 : ℝ) ≤ 1 + Real.tan ρ ^ 2 := by positivity
+  have hsq1 : (1 : ℝ) ≤ 1 + Real.tan ρ ^ 2 := by nlinarith [sq_nonneg (Real.tan ρ)]
+  -- |tan rr| ≤ |tan ρ| + hp
+  have h2 : |Real.tan (rval r)| ≤ |Real.tan ρ| + 1 / 2 ^ 81 * (1 + 1 / 2 ^ 50) * (1 + Real.tan ρ ^ 2) := by
+    have := abs_add_le (Real.tan (rval r) - Real.tan ρ) (Real.tan ρ)
+    rw [sub_add_cancel] at this
+    linarith
+  have e : rval (trigonometry.restricted_tan r) - Real.tan ρ
+      = (rval (trigonometry.restricted_tan r) - Real.tan (rval r)) + (Real.tan (rval r) - Real.tan ρ) := by ring
+  rw [e]
+  refine le_trans (abs_add_le _ _) ?_
+  have h3 := mul_le_mul_of_nonneg_left h2 (by positivity : (0 : ℝ) ≤ 5 / 2 ^ 53)
+  have h4 : (1 : ℝ) / 2 ^ 949 ≤ 1 / 2 ^ 949 * (1 + Real.tan ρ ^ 2) := by
+    have := mul_le_mul_of_nonneg_left hsq1 (by positivity : (0 : ℝ) ≤ 1 / 2 ^ 949)
+    linarith
+  have h5 : 5 / 2 ^ 53 * (1 / 2 ^ 81 * (1 + 1 / 2 ^ 50) * (1 + Real.tan ρ ^ 2))
+      + 1 / 2 ^ 949 * (1 + Real.tan ρ ^ 2) + 1 / 2 ^ 81 * (1 + 1 / 2 ^ 50) * (1 + Real.tan ρ ^ 2)
+      ≤ 1 / 2 ^ 81 * (1 + 1 / 2 ^ 40) * (1 + Real.tan ρ ^ 2) := by
+    have : (5 : ℝ) / 2 ^ 53 * (1 / 2 ^ 81 * (1 + 1 / 2 ^ 50)) + 1 / 2 ^ 949 + 1 / 2 ^ 81 * (1 + 1 / 2 ^ 50)
+        ≤ 1 / 2 ^ 81 * (1 + 1 / 2 ^ 40) := by norm_num
+    have := mul_le_mul_of_nonneg_right this hsq
+    linarith
+  linarith
+
+/-- pure arithmetic of the reciprocal branch -/
+theorem odd_arith {T q t : ℝ} (ht1 : 1 / 2 ^ 69 ≤ |t|) (ht2 : |t| ≤ 6 / 5)
+    (hT : |T - t| ≤ 5 / 2 ^ 53 * |t| + 1 / 2 ^ 81 * (1 + 1 / 2 ^ 40) * (1 + t ^ 2))
+    (hq : |-1 - q * T| ≤ 1 / 2 ^ 102) :
+    |q - -(1 / t)| ≤ 1 / 2 ^ 50 * |1 / t| + 1 / 2 ^ 80 * (1 + (1 / t) ^ 2) := by
+  set τ := |t| with hτ
+  have hτ0 : 0 < τ := lt_of_lt_of_le (by positivity) ht1
+  have ht0 : t ≠ 0 := abs_pos.1 hτ0
+  have hsq : t ^ 2 = τ ^ 2 := by rw [hτ, sq_abs]
+  have hδ : 1 / 2 ^ 81 * (1 + 1 / 2 ^ 40) * (1 + t ^ 2) ≤ τ * (1 / 2 ^ 10) := by
+    have h1 : 1 + t ^ 2 ≤ 3 := by rw [hsq]; nlinarith
+    have h2 : (1 : ℝ) / 2 ^ 81 * (1 + 1 / 2 ^ 40) * 3 ≤ 1 / 2 ^ 69 * (1 / 2 ^ 10) := by norm_num
+    have h3 : (1 : ℝ) / 2 ^ 81 * (1 + 1 / 2 ^ 40) * (1 + t ^ 2) ≤ 1 / 2 ^ 81 * (1 + 1 / 2 ^ 40) * 3 :=
+      mul_le_mul_of_nonneg_left h1 (by positivity)
+    have h4 : (1 : ℝ) / 2 ^ 69 * (1 / 2 ^ 10) ≤ τ * (1 / 2 ^ 10) := mul_le_mul_of_nonneg_right ht1 (by positivity)
+    linarith
+  have hTt : |T - t| ≤ τ * (1 / 2 ^ 9) := by
+    have : 5 / 2 ^ 53 * τ ≤ τ * (1 / 2 ^ 10) := by nlinarith
+    have e : τ * (1 / 2 ^ 9) = τ * (1 / 2 ^ 10) + τ * (1 / 2 ^ 10) := by ring
+    rw [e]; linarith
+  have hTlo : τ * (1 - 1 / 2 ^ 9) ≤ |T| := by
+    have := abs_add_le (t - T) T
+    rw [sub_add_cancel, abs_sub_comm] at this
+    have e : τ * (1 - 1 / 2 ^ 9) = τ - τ * (1 / 2 ^ 9) := by ring
+    rw [e]; linarith
+  have hT0 : 0 < |T| := lt_of_lt_of_le (by positivity) hTlo
+  have hTne : T ≠ 0 := abs_pos.1 hT0
+  -- 1/|T| ≤ (1 + 2^-9)/τ
+  have hinv : 1 / |T| ≤ (1 + 1 / 2 ^ 8) / τ := by
+    rw [div_le_div_iff₀ hT0 hτ0]
+    have : τ * 1 ≤ τ * ((1 - 1 / 2 ^ 9) * (1 + 1 / 2 ^ 8)) := mul_le_mul_of_nonneg_left (by norm_num) hτ0.le
+    nlinarith
+  have e : q - -(1 / t) = (q * T + 1) / T + (T - t) / (T * t) := by field_simp; ring
+  rw [e]
+  refine le_trans (abs_add_le _ _) ?_
+  rw [abs_div, abs_div, abs_mul]
+  have hq' : |q * T + 1| ≤ 1 / 2 ^ 102 := by
+    rw [← abs_neg]; refine le_trans (le_of_eq ?_) hq; congr 1; ring
+  have p1 : |q * T + 1| / |T| ≤ 1 / 2 ^ 102 * ((1 + 1 / 2 ^ 8) / τ) := by
+    rw [div_eq_mul_one_div]
+    exact mul_le_mul hq' hinv (by positivity) (by positivity)
+  have p2 : |T - t| / (|T| * τ)
+      ≤ (5 / 2 ^ 53 * τ + 1 / 2 ^ 81 * (1 + 1 / 2 ^ 40) * (1 + t ^ 2)) * ((1 + 1 / 2 ^ 8) / τ) / τ := by
+    rw [← div_div, div_le_div_iff_of_pos_right hτ0, div_eq_mul_one_div]
+    exact mul_le_mul hT hinv (by positivity) (by positivity)
+  have e1 : |1 / t| = 1 / τ := by rw [abs_div, abs_one]
+  have e2 : (1 / t) ^ 2 = 1 / τ ^ 2 := by rw [div_pow, one_pow, hsq]
+  rw [e1, e2]
+  have e3 : (5 / 2 ^ 53 * τ + 1 / 2 ^ 81 * (1 + 1 / 2 ^ 40) * (1 + t ^ 2)) * ((1 + 1 / 2 ^ 8) / τ) / τ
+      = 5 / 2 ^ 53 * (1 + 1 / 2 ^ 8) * (1 / τ)
+        + 1 / 2 ^ 81 * (1 + 1 / 2 ^ 40) * (1 + 1 / 2 ^ 8) * (1 + 1 / τ ^ 2) := by
+    rw [hsq]; field_simp; ring
+  rw [e3] at p2
+  have e4 : 1 / 2 ^ 102 * ((1 + 1 / 2 ^ 8) / τ) = 1 / 2 ^ 102 * (1 + 1 / 2 ^ 8) * (1 / τ) := by ring
+  rw [e4] at p1
+  have hi0 : 0 ≤ 1 / τ := by positivity
+  have hi1 : (0 : ℝ) ≤ 1 + 1 / τ ^ 2 := by positivity
+  have n1 : (1 : ℝ) / 2 ^ 102 * (1 + 1 / 2 ^ 8) + 5 / 2 ^ 53 * (1 + 1 / 2 ^ 8) ≤ 1 / 2 ^ 50 := by norm_num
+  have n2 : (1 : ℝ) / 2 ^ 81 * (1 + 1 / 2 ^ 40) * (1 + 1 / 2 ^ 8) ≤ 1 / 2 ^ 80 := by norm_num
+  have m1 := mul_le_mul_of_nonneg_right n1 hi0
+  have m2 := mul_le_mul_of_nonneg_right n2 hi1
+  linarith
+
+/-- the high word of a valid pair from bounds on its value -/
+theorem hi_range_gen {t : TwoFloat} (hv : t.Valid) {k j : ℕ} (hk : k ≤ 1073)
+    (h1 : 1 / 2 ^ k ≤ |val t|) (h2 : |val t| ≤ 2 ^ j) :
+    2 ^ (1073 - k) ≤ t.hi.toInt.natAbs ∧ t.hi.toInt.natAbs ≤ 2 ^ (1075 + j) := by
+  have a1 : (2 : Int) ^ (1074 - k) ≤ |t.V| := int_lower (by omega) h1
+  have a2 : |t.V| ≤ (2 : Int) ^ (1074 + j) := int_upper h2
+  obtain ⟨b1, b2⟩ := hi_bounds hv
+  have c1 : (2 : Int) ^ (1073 - k) ≤ |t.hi.toInt| := by
+    have e : (2 : Int) ^ (1074 - k) = 2 * 2 ^ (1073 - k) := by
+      rw [← pow_succ']; congr 1; omega
+    rw [e] at a1
+    have p : (0 : Int) < 2 ^ (1073 - k) := by positivity
+    generalize (2 : Int) ^ (1073 - k) = W at *
+    nlinarith [abs_nonneg t.hi.toInt]
+  have c2 : |t.hi.toInt| ≤ (2 : Int) ^ (1075 + j) := by
+    have e : (2 : Int) ^ (1075 + j) = 2 * 2 ^ (1074 + j) := by
+      rw [← pow_succ']; congr 1; omega
+    rw [e]
+    have p : (0 : Int) < 2 ^ (1074 + j) := by positivity
+    generalize (2 : Int) ^ (1074 + j) = W at *
+    nlinarith [abs_nonneg t.hi.toInt]
+  rw [Int.abs_eq_natAbs] at c1 c2
+  exact ⟨by exact_mod_cast c1, by exact_mod_cast c2⟩
+
+theorem neg_one_facts : (F64.neg (f64lit 0x3ff0000000000000)).is_finite = true ∧
+    (F64.neg (f64lit 0x3ff0000000000000)).WF ∧ (F64.neg (f64lit 0x3ff0000000000000)).toInt = -2 ^ 1074 ∧
+    2 ^ 624 ≤ (F64.neg (f64lit 0x3ff0000000000000)).toInt.natAbs ∧
+    (F64.neg (f64lit 0x3ff0000000000000)).toInt.natAbs ≤ 2 ^ 1524 := by decide +kernel
+
+/-- `-1.0 / T` (f64 / TwoFloat), `T.hi` of magnitude in `[2^-450, 2^450]`: `|−1 − q·T| ≤ 2^-102` -/
+theorem neg_one_div_val {T : TwoFloat} (hv : T.Valid) (hw : T.WF)
+    (hB : 2 ^ 624 ≤ T.hi.toInt.natAbs ∧ T.hi.toInt.natAbs ≤ 2 ^ 1524) :
+    (arithmetic.impl_Div_rTwoFloat_for_rf64.div (F64.neg (f64lit 0x3ff0000000000000)) T).Valid ∧
+    (arithmetic.impl_Div_rTwoFloat_for_rf64.div (F64.neg (f64lit 0x3ff0000000000000)) T).WF ∧
+    |-1 - val (arithmetic.impl_Div_rTwoFloat_for_rf64.div (F64.neg (f64lit 0x3ff0000000000000)) T) * val T|
+      ≤ 1 / 2 ^ 102 := by
+  obtain ⟨f1, f2, f3, f4, f5⟩ := neg_one_facts
+  obtain ⟨hV, hW⟩ := C01d.div_ft_valid _ T f1 f2 hv hw f4 f5 hB.1 hB.2
+  have hb := C01d.div_ft_bound _ T f1 f2 hv hw f4 f5 hB.1 hB.2
+  refine ⟨hV, hW, ?_⟩
+  have hb' : 2 ^ 102 * |(F64.neg (f64lit 0x3ff0000000000000)).toInt * (unit : Int)
+      - (arithmetic.impl_Div_rTwoFloat_for_rf64.div (F64.neg (f64lit 0x3ff0000000000000)) T).V * T.V|
+      ≤ |(F64.neg (f64lit 0x3ff0000000000000)).toInt * (unit : Int)| := hb
+  generalize arithmetic.impl_Div_rTwoFloat_for_rf64.div (F64.neg (f64lit 0x3ff0000000000000)) T = q at *
+  rw [f3, unit_cast_eq] at hb'
+  have hq : (2 : ℚ) ^ 102 * |-(2 : ℚ) ^ 1074 * 2 ^ 1074 - q.V * T.V| ≤ |-(2 : ℚ) ^ 1074 * 2 ^ 1074| := by
+    exact_mod_cast hb'
+  unfold val
+  have hW0 : (0 : ℚ) < 2 ^ 1074 := by positivity
+  generalize (2 : ℚ) ^ 1074 = W at *
+  have e1 : (-1 : ℚ) - q.V / W * (T.V / W) = (-W * W - q.V * T.V) / (W * W) := by field_simp
+  have e2 : |-W * W| = W * W := by rw [neg_mul, abs_neg]; exact abs_of_pos (mul_pos hW0 hW0)
+  rw [e2] at hq
+  rw [e1, abs_div, abs_of_pos (mul_pos hW0 hW0), div_le_iff₀ (mul_pos hW0 hW0)]
+  have p : (0 : ℚ) < 2 ^ 102 := by positivity
+  have : (2 : ℚ) ^ 102 * (1 / 2 ^ 102 * (W * W)) = W * W := by field_simp
+  nlinarith
+
+theorem tan_add_quarter (ρ : ℝ) (k : ℤ) :
+    Real.tan (ρ + (k : ℝ) * (Real.pi / 2)) =
+      if k % 4 = 0 ∨ k % 4 = 2 then Real.tan ρ else -(1 / Real.tan ρ) := by
+  rw [Real.tan_eq_sin_div_cos, sin_add_quarter, cos_add_quarter, Real.tan_eq_sin_div_cos]
+  have h0 := Int.emod_nonneg k (by norm_num : (4 : ℤ) ≠ 0)
+  have h4 := Int.emod_lt_of_pos k (by norm_num : (0 : ℤ) < 4)
+  generalize k % 4 = i at *
+  interval_cases i
+  · simp
+  · simp [div_neg]
+  · simp [neg_div_neg_eq]
+  · simp [neg_div]
+
+theorem abs_cos_add_quarter_odd (ρ : ℝ) (k : ℤ) (h : ¬ (k % 4 = 0 ∨ k % 4 = 2)) :
+    |Real.cos (ρ + (k : ℝ) * (Real.pi / 2))| = |Real.sin ρ| := by
+  rw [cos_add_quarter]
+  have h0 := Int.emod_nonneg k (by norm_num : (4 : ℤ) ≠ 0)
+  have h4 := Int.emod_lt_of_pos k (by norm_num : (0 : ℤ) < 4)
+  generalize k % 4 = i at *
+  interval_cases i
+  · exact absurd (Or.inl rfl) h
+  · simp
+  · exact absurd (Or.inr rfl) h
+  · simp
+
+/-! ## 3. the statement of property C16 for `tan` -/
+
+/-- **C16 (tan)**: for valid well-formed `x`, `|x| ≤ 2^20`, away from the poles (`|cos x| ≥ 2^-69`; automatic in the
+even quadrants): the result is a valid pair and
+`|tan(x) − tan x| ≤ 2^-50·|tan x| + 2^-80·(1 + tan² x)`
+(the property has `max(|tan x|, 2^-30)` in the first term, which is weaker).
+The pole hypothesis cannot be dropped: see `tan_pole_counterexample`. -/
+theorem tan_bound {x : TwoFloat} (hv : x.Valid) (hw : x.WF) (hhi : |val x| ≤ 2 ^ 20)
+    (hpole : 1 / 2 ^ 69 ≤ |Real.cos (rval x)|) :
+    (TwoFloat.tan x).Valid ∧
+    |rval (TwoFloat.tan x) - Real.tan (rval x)|
+      ≤ 1 / 2 ^ 50 * |Real.tan (rval x)| + 1 / 2 ^ 80 * (1 + Real.tan (rval x) ^ 2) := by
+  have hiv : TwoFloat.is_valid x = true := (C07.is_valid_iff x hw).2 hv
+  obtain ⟨k, hq, hvr, hwr, hr, hρ⟩ := quadrant_spec hv hw hhi
+  rw [C16.tan_valid x hiv]
+  simp only [hq, i8_eq]
+  have e0 : ((0 : I8)).v = 0 := rfl
+  have e2 : ((2 : I8)).v = 2 := rfl
+  simp only [e0, e2, Bool.or_eq_true, decide_eq_true_eq]
+  have ex : rval x = (rval x - (k : ℝ) * (Real.pi / 2)) + (k : ℝ) * (Real.pi / 2) := by ring
+  rw [ex] at hpole ⊢
+  set ρ := rval x - (k : ℝ) * (Real.pi / 2) with hρdef
+  rw [tan_add_quarter]
+  obtain ⟨hvT, hwT, _⟩ := restricted_tan_real hvr hwr hr
+  have hT := via_tan hvr hwr hr hρ
+  set r := (trigonometry.quadrant x).1 with hrdef
+  have hsq : (0 : ℝ) ≤ 1 + Real.tan ρ ^ 2 := by positivity
+  by_cases hev : k % 4 = 0 ∨ k % 4 = 2
+  · simp only [hev, if_true]
+    refine ⟨hvT, le_trans hT ?_⟩
+    have h1 : 5 / 2 ^ 53 * |Real.tan ρ| ≤ 1 / 2 ^ 50 * |Real.tan ρ| :=
+      mul_le_mul_of_nonneg_right (by norm_num) (abs_nonneg _)
+    have h2 : 1 / 2 ^ 81 * (1 + 1 / 2 ^ 40) * (1 + Real.tan ρ ^ 2) ≤ 1 / 2 ^ 80 * (1 + Real.tan ρ ^ 2) :=
+      mul_le_mul_of_nonneg_right (by norm_num) hsq
+    linarith
+  · simp only [hev, if_false]
+    rw [abs_cos_add_quarter_odd ρ k hev] at hpole
+    have hr' : |rval r| ≤ 393 / 500 := by have := rval_le hr; push_cast at this; exact this
+    have hρ' : |ρ| ≤ 787 / 1000 := by
+      have := abs_add_le (ρ - rval r) (rval r)
+      rw [sub_add_cancel, abs_sub_comm ρ (rval r)] at this
+      have : (1 : ℝ) / 2 ^ 81 ≤ 1 / 1000 := by norm_num
+      linarith
+    have hc := cos_ge_small hρ'
+    have hcpos : 0 < Real.cos ρ := by linarith
+    have hc1 : Real.cos ρ ≤ 1 := Real.cos_le_one ρ
+    -- 2^-69 ≤ |tan ρ| ≤ 6/5
+    have htan : |Real.tan ρ| = |Real.sin ρ| / Real.cos ρ := by
+      rw [Real.tan_eq_sin_div_cos, abs_div, abs_of_pos hcpos]
+    have ht1 : 1 / 2 ^ 69 ≤ |Real.tan ρ| := by
+      rw [htan, le_div_iff₀ hcpos]
+      have : 1 / 2 ^ 69 * Real.cos ρ ≤ 1 / 2 ^ 69 * 1 := mul_le_mul_of_nonneg_left hc1 (by positivity)
+      linarith
+    have ht2 : |Real.tan ρ| ≤ 6 / 5 := by
+      rw [htan, div_le_iff₀ hcpos]
+      have h1 : |Real.sin ρ| ≤ |ρ| := Real.abs_sin_le_abs
+      have : (787 : ℝ) / 1000 ≤ 6 / 5 * (69 / 100) := by norm_num
+      have : 6 / 5 * (69 / 100) ≤ 6 / 5 * Real.cos ρ := mul_le_mul_of_nonneg_left hc (by norm_num)
+      linarith
+    -- the size of T
+    set Tt := trigonometry.restricted_tan r with hTt
+    have hTsz : 1 / 2 ^ 70 ≤ |rval Tt| ∧ |rval Tt| ≤ 2 := by
+      have h1 : 1 + Real.tan ρ ^ 2 ≤ 3 := by
+        have : Real.tan ρ ^ 2 ≤ (6 / 5) ^ 2 := by
+          rw [← sq_abs]; exact pow_le_pow_left₀ (abs_nonneg _) ht2 2
+        norm_num at this; linarith
+      have h2 : 1 / 2 ^ 81 * (1 + 1 / 2 ^ 40) * (1 + Real.tan ρ ^ 2) ≤ 1 / 2 ^ 81 * (1 + 1 / 2 ^ 40) * 3 :=
+        mul_le_mul_of_nonneg_left h1 (by positivity)
+      have h3 : (1 : ℝ) / 2 ^ 81 * (1 + 1 / 2 ^ 40) * 3 ≤ 1 / 4 * (1 / 2 ^ 69) := by norm_num
+      have h4 : 5 / 2 ^ 53 * |Real.tan ρ| ≤ 1 / 4 * |Real.tan ρ| :=
+        mul_le_mul_of_nonneg_right (by norm_num) (abs_nonneg _)
+      have h5 : |rval Tt - Real.tan ρ| ≤ 1 / 2 * |Real.tan ρ| := by linarith
+      constructor
+      · have := abs_add_le (Real.tan ρ - rval Tt) (rval Tt)
+        rw [sub_add_cancel, abs_sub_comm] at this
+        have e : (1 : ℝ) / 2 ^ 70 = 1 / 2 * (1 / 2 ^ 69) := by norm_num
+        rw [e]; linarith
+      · have := abs_add_le (rval Tt - Real.tan ρ) (Real.tan ρ)
+        rw [sub_add_cancel] at this
+        linarith
+    have hTq1 : (1 : ℚ) / 2 ^ 70 ≤ |val Tt| := by
+      rw [← Rat.cast_le (K := ℝ), Rat.cast_abs]
+      push_cast
+      exact hTsz.1
+    have hTq2 : |val Tt| ≤ 2 ^ 1 := by
+      rw [← Rat.cast_le (K := ℝ), Rat.cast_abs]
+      push_cast
+      rw [pow_one]; exact hTsz.2
+    have hrng := hi_range_gen hvT (k := 70) (j := 1) (by norm_num) hTq1 hTq2
+    obtain ⟨hvq, _, heq⟩ := neg_one_div_val hvT hwT
+      ⟨le_trans (Nat.pow_le_pow_right (by norm_num) (by norm_num)) hrng.1,
+       le_trans hrng.2 (Nat.pow_le_pow_right (by norm_num) (by norm_num))⟩
+    show (arithmetic.impl_Div_rTwoFloat_for_rf64.div (F64.neg (f64lit 0x3ff0000000000000)) Tt).Valid ∧
+      |rval (arithmetic.impl_Div_rTwoFloat_for_rf64.div (F64.neg (f64lit 0x3ff0000000000000)) Tt)
+        - -(1 / Real.tan ρ)|
+        ≤ 1 / 2 ^ 50 * |-(1 / Real.tan ρ)| + 1 / 2 ^ 80 * (1 + (-(1 / Real.tan ρ)) ^ 2)
+    refine ⟨hvq, ?_⟩
+    have heqR : |-1 - rval (arithmetic.impl_Div_rTwoFloat_for_rf64.div (F64.neg (f64lit 0x3ff0000000000000)) Tt)
+        * rval Tt| ≤ 1 / 2 ^ 102 := by
+      have := (Rat.cast_le (K := ℝ)).2 heq
+      unfold rval
+      push_cast at this ⊢
+      exact this
+    have := odd_arith ht1 ht2 hT heqR
+    rw [abs_neg, neg_sq]
+    exact this
+
+/-- **C16 (tan) in the property's form** -/
+theorem C16_tan {x : TwoFloat} (hv : x.Valid) (hw : x.WF) (hhi : |val x| ≤ 2 ^ 20)
+    (hpole : 1 / 2 ^ 69 ≤ |Real.cos (rval x)|) :
+    |rval (TwoFloat.tan x) - Real.tan (rval x)|
+      ≤ 1 / 2 ^ 50 * Max.max |Real.tan (rval x)| (1 / 2 ^ 30) + 1 / 2 ^ 80 * (1 + Real.tan (rval x) ^ 2) := by
+  refine le_trans (tan_bound hv hw hhi hpole).2 ?_
+  have := mul_le_mul_of_nonneg_left (le_max_left |Real.tan (rval x)| (1 / 2 ^ 30))
+    (by positivity : (0 : ℝ) ≤ 1 / 2 ^ 50)
+  linarith
+
+/-- the pole hypothesis in checkable form: the MODEL's cosine of `x` is at least `2^-60` in magnitude -/
+theorem tan_bound_of_model_cos {x : TwoFloat} (hv : x.Valid) (hw : x.WF) (hhi : |val x| ≤ 2 ^ 20)
+    (hc : 1 / 2 ^ 60 ≤ |val (TwoFloat.cos x)|) :
+    (TwoFloat.tan x).Valid ∧
+    |rval (TwoFloat.tan x) - Real.tan (rval x)|
+      ≤ 1 / 2 ^ 50 * |Real.tan (rval x)| + 1 / 2 ^ 80 * (1 + Real.tan (rval x) ^ 2) := by
+  refine tan_bound hv hw hhi ?_
+  have h1 := (cos_abs_bound hv hw hhi).2
+  have h2 : (1 : ℝ) / 2 ^ 60 ≤ |rval (TwoFloat.cos x)| := by
+    rw [abs_rval]
+    have := (Rat.cast_le (K := ℝ)).2 hc
+    push_cast at this
+    rw [← Rat.cast_abs] at this
+    exact this
+  have h3 := abs_add_le (rval (TwoFloat.cos x) - Real.cos (rval x)) (Real.cos (rval x))
+  rw [sub_add_cancel] at h3
+  have : (1 : ℝ) / 2 ^ 69 + 1 / 2 ^ 68 ≤ 1 / 2 ^ 60 := by norm_num
+  linarith
+
+/-- the hypotheses are satisfiable: `x = 1000` (quadrant 1, the reciprocal branch) -/
+example :
+    |rval (TwoFloat.tan ⟨f64lit 0x408f400000000000, F64.zero⟩)
+      - Real.tan (rval ⟨f64lit 0x408f400000000000, F64.zero⟩)|
+      ≤ 1 / 2 ^ 50 * |Real.tan (rval ⟨f64lit 0x408f400000000000, F64.zero⟩)|
+        + 1 / 2 ^ 80 * (1 + Real.tan (rval ⟨f64lit 0x408f400000000000, F64.zero⟩) ^ 2) :=
+  (tan_bound_of_model_cos (by decide +kernel) (by decide +kernel) (by decide +kernel) (by decide +kernel)).2
+
+/-! ## 4. FINDING: the floor of C16 fails at the poles
+
+`x = consts::FRAC_PI_2` is a valid in-range argument.  The reduction gives the quotient `1` and the remainder
+`x − 1·FRAC_PI_2 = 0` EXACTLY (the same double-double constant is subtracted), so `restricted_tan 0 = 0` and
+`−1.0 / 0` is NaN: `tan(FRAC_PI_2) = (NaN, NaN)`.  The true value `tan(FRAC_PI_2) = cot(π/2 − FRAC_PI_2)` is a
+finite real of magnitude about `2^108` (`|π/2 − FRAC_PI_2| ≤ 2^-106`), and the right-hand side of the property is
+finite; a NaN result violates it.  The same happens at every `x = q ⊗ FRAC_PI_2` (`q` odd) that the double-double
+product represents, e.g. `3·FRAC_PI_2`. -/
+
+theorem tan_pole_counterexample :
+    consts.FRAC_PI_2.Valid ∧ consts.FRAC_PI_2.WF ∧ |val consts.FRAC_PI_2| ≤ 2 ^ 20 ∧
+    trigonometry.quadrant consts.FRAC_PI_2 = (⟨F64.fin false 0, F64.fin false 0⟩, (1 : I8)) ∧
+    TwoFloat.tan consts.FRAC_PI_2 = ⟨F64.nan, F64.nan⟩ ∧
+    TwoFloat.tan (arithmetic.impl_Mul_TwoFloat_for_f64.mul (f64lit 0x4008000000000000) consts.FRAC_PI_2)
+      = ⟨F64.nan, F64.nan⟩ := by
+  decide +kernel
+
+/-- at that argument the hypothesis `hpole` of `tan_bound` fails: `|cos x| ≤ 2^-106` -/
+theorem cos_at_pole : |Real.cos (rval consts.FRAC_PI_2)| ≤ 1 / 2 ^ 106 := by
+  have h := P_real_err
+  have e : Real.cos (rval consts.FRAC_PI_2) = Real.sin (Real.pi / 2 - rval consts.FRAC_PI_2) := by
+    rw [Real.sin_pi_div_two_sub]
+  rw [e]
+  refine le_trans Real.abs_sin_le_abs ?_
+  rw [abs_sub_comm]; exact h
+
 end C16u
